@@ -177,11 +177,14 @@ struct Config {
     partitions: u64,
     /// (nth put fails, "once"|"always") or get fault
     fault: Option<(&'static str, u64, &'static str)>,
+    /// for put faults: (HTTP status, how many uploads in a row fail); 5xx is retried inside the client library, 4xx reaches
+    /// nun-db's own retry at once, a run of 5xx longer than the library's attempts does so too
+    put_fault_shape: (u16, u64),
 }
 
 fn run_child(h: &serde_json::Value, cfg: &Config, stub: &Stub, bucket: &str, dir: &str) -> Option<serde_json::Value> {
     if let Some((what, n, mode)) = cfg.fault {
-        let body = if what == "put" { json!({"fail_put_nth": n, "fail_put_mode": mode}) } else { json!({"fail_get_nth": n}) };
+        let body = if what == "put" { json!({"fail_put_nth": n, "fail_put_mode": mode, "fail_put_status": cfg.put_fault_shape.0, "fail_put_count": cfg.put_fault_shape.1}) } else { json!({"fail_get_nth": n}) };
         stub.http("POST", &format!("/__control/{}", bucket), &body.to_string());
     } else {
         stub.http("POST", &format!("/__control/{}", bucket), "{}");
@@ -294,16 +297,20 @@ pub fn run(tier: &str) -> i32 {
     let mut rng = Rng::new(seed());
     let hists: Vec<(serde_json::Value, bool)> = (0..n_hist).map(|i| { let p = i % 5 == 4; (gen_history(&mut rng, p), p) }).collect();
     let configs: Vec<Config> = vec![
-        Config { strategy: "s3", partitions: 10, fault: None },
-        Config { strategy: "s3_patition", partitions: 1, fault: None },
-        Config { strategy: "s3_patition", partitions: 3, fault: None },
-        Config { strategy: "s3_patition", partitions: 10, fault: None },
-        Config { strategy: "s3", partitions: 10, fault: Some(("put", 2, "once")) },
-        Config { strategy: "s3_patition", partitions: 3, fault: Some(("put", 2, "once")) },
-        Config { strategy: "s3_patition", partitions: 3, fault: Some(("put", 2, "always")) },
-        Config { strategy: "s3_patition", partitions: 3, fault: Some(("get", 1, "once")) },
-        Config { strategy: "s3", partitions: 10, fault: Some(("put", 2, "always")) },
-        Config { strategy: "s3", partitions: 10, fault: Some(("get", 1, "once")) },
+        Config { strategy: "s3", partitions: 10, fault: None, put_fault_shape: (500, 1) },
+        Config { strategy: "s3_patition", partitions: 1, fault: None, put_fault_shape: (500, 1) },
+        Config { strategy: "s3_patition", partitions: 3, fault: None, put_fault_shape: (500, 1) },
+        Config { strategy: "s3_patition", partitions: 10, fault: None, put_fault_shape: (500, 1) },
+        Config { strategy: "s3", partitions: 10, fault: Some(("put", 2, "once")), put_fault_shape: (500, 1) },
+        Config { strategy: "s3_patition", partitions: 3, fault: Some(("put", 2, "once")), put_fault_shape: (500, 1) },
+        Config { strategy: "s3_patition", partitions: 3, fault: Some(("put", 2, "always")), put_fault_shape: (500, 1) },
+        Config { strategy: "s3_patition", partitions: 3, fault: Some(("get", 1, "once")), put_fault_shape: (500, 1) },
+        Config { strategy: "s3", partitions: 10, fault: Some(("put", 2, "always")), put_fault_shape: (500, 1) },
+        Config { strategy: "s3", partitions: 10, fault: Some(("get", 1, "once")), put_fault_shape: (500, 1) },
+        Config { strategy: "s3_patition", partitions: 3, fault: Some(("put", 2, "once")), put_fault_shape: (403, 1) },
+        Config { strategy: "s3", partitions: 10, fault: Some(("put", 2, "once")), put_fault_shape: (403, 1) },
+        Config { strategy: "s3_patition", partitions: 3, fault: Some(("put", 1, "once")), put_fault_shape: (500, 4) },
+        Config { strategy: "s3", partitions: 10, fault: Some(("put", 1, "once")), put_fault_shape: (503, 4) },
     ];
     let next = std::sync::atomic::AtomicUsize::new(0);
     let bucket_n = std::sync::atomic::AtomicUsize::new(0);
@@ -317,7 +324,7 @@ pub fn run(tier: &str) -> i32 {
                 }
                 let (h, prefix_names) = &hists[i];
                 let dir = fresh_dir(&format!("c18-w{}", w));
-                let disk_cfg = Config { strategy: "disk", partitions: 10, fault: None };
+                let disk_cfg = Config { strategy: "disk", partitions: 10, fault: None, put_fault_shape: (500, 1) };
                 let b0 = format!("b{}", bucket_n.fetch_add(1, std::sync::atomic::Ordering::SeqCst));
                 let disk = run_child(h, &disk_cfg, stub, &b0, &dir);
                 let _ = std::fs::remove_dir_all(&dir);
@@ -327,7 +334,7 @@ pub fn run(tier: &str) -> i32 {
                 };
                 let disk_restarts: Vec<&serde_json::Value> = disk["events"].as_array().unwrap().iter().filter(|e| e["event"] == "restart").collect();
                 // two configurations per history (all of them over the run)
-                let picks = [i % 4, 4 + (i % 6)];
+                let picks = [i % 4, 4 + (i % (configs.len() - 4))];
                 for ci in picks {
                     let cfg = &configs[ci];
                     let bucket = format!("b{}", bucket_n.fetch_add(1, std::sync::atomic::Ordering::SeqCst));
@@ -336,9 +343,9 @@ pub fn run(tier: &str) -> i32 {
                     let _ = std::fs::remove_dir_all(&dir);
                     let log: Vec<serde_json::Value> = stub.http("GET", &format!("/__log/{}", bucket), "").and_then(|b| serde_json::from_str(&b).ok()).unwrap_or_default();
                     let puts = log.iter().filter(|e| e["op"] == "PUT").count() as u64;
-                    let failed_puts: Vec<&serde_json::Value> = log.iter().filter(|e| e["op"] == "PUT" && e["status"] == 500).collect();
+                    let failed_puts: Vec<&serde_json::Value> = log.iter().filter(|e| e["op"] == "PUT" && e["status"] != 200).collect();
                     let failed_gets = log.iter().filter(|e| e["op"] == "GET" && e["status"] == 500).count();
-                    let cfg_name = format!("{}{}", cfg.strategy, cfg.fault.map(|f| format!("+{}{}{}", f.0, f.1, f.2)).unwrap_or_default());
+                    let cfg_name = format!("{}{}", cfg.strategy, cfg.fault.map(|f| format!("+{}{}{}-{}x{}", f.0, f.1, f.2, cfg.put_fault_shape.0, cfg.put_fault_shape.1)).unwrap_or_default());
                     {
                         let mut s = st.lock().unwrap();
                         s.runs += 1;
@@ -370,7 +377,7 @@ pub fn run(tier: &str) -> i32 {
                             let key = failed_puts[0]["key"].as_str().unwrap_or("").to_string();
                             // a retry is the very next upload, of the same object
                             let puts_only: Vec<&serde_json::Value> = log.iter().filter(|e| e["op"] == "PUT").collect();
-                            let pos = puts_only.iter().position(|e| e["status"] == 500).unwrap();
+                            let pos = puts_only.iter().position(|e| e["status"] != 200).unwrap();
                             let later_ok = puts_only.iter().skip(pos + 1).take_while(|e| e["key"] == key.as_str()).any(|e| e["status"] == 200);
                             let reported = evs.iter().any(|e| e["event"] == "snapshot-reported-failure");
                             if mode == "always" {
